@@ -130,6 +130,25 @@ func (ex *Exec) sliceOp(st *State, in *ssa.Slice, pos string) Val {
 		if !ok {
 			ex.fail("slice of %s", in.X.Type())
 		}
+		if isHashType(xt.Elem()) || isAddrType(xt.Elem()) {
+			// bytes of an abstract hash / address value: a fresh read-only copy holding hb(h)
+			n := p.Int(arr.Len())
+			if in.High != nil {
+				hi = ex.term(st, in.High)
+			} else {
+				hi = n
+			}
+			ex.oblige(st, "nopanic.slice", "slice bounds in range", p.And(p.Le(p.Int(0), lo), p.Le(lo, hi), p.Le(hi, n)), pos)
+			ptr := ex.asPtr(ex.val(st, in.X), xt.Elem())
+			h := ex.load(st, ptr, xt.Elem(), pos)
+			ref := ex.freshRef(st)
+			name := "[]" + shortTypeName(arr.Elem())
+			rs := p.ArraySort(IntSort, p.ArraySort(IntSort, IntSort))
+			r := ex.getRegion(st, name, rs)
+			st.heap[name] = p.Store(r, ref, ex.bytesOfAbstract(h))
+			ex.assumptions["slice of a hash/address value is modelled as a copy of its bytes (writes through the slice are not reflected back)"] = true
+			return p.Mk(ex.tm.SliceS, ref, lo, p.Sub(hi, lo), p.Sub(n, lo))
+		}
 		n := p.Int(arr.Len())
 		if in.High != nil {
 			hi = ex.term(st, in.High)
@@ -281,7 +300,7 @@ func (ex *Exec) selectInstr(st *State, in *ssa.Select, pos string) {
 
 var opaquePkgs = []string{"fmt", "log", "time", "strings", "strconv", "errors", "os", "runtime", "sync", "sync/atomic", "context",
 	"github.com/agglayer/aggkit/log", "go.uber.org/zap", "github.com/prometheus", "github.com/agglayer/aggkit/prometheus",
-	"github.com/hermeznetwork/tracerr", "math/rand", "encoding/hex", "github.com/ethereum/go-ethereum/common/hexutil"}
+	"github.com/hermeznetwork/tracerr", "math/rand", "encoding/hex", "encoding/json", "github.com/agglayer/aggkit/aggsender/metrics", "github.com/ethereum/go-ethereum/common/hexutil"}
 
 func (ex *Exec) isOpaqueFn(fn *ssa.Function) bool {
 	if fn == nil {
@@ -1038,4 +1057,28 @@ func sortedNames(m map[string]bool) []string {
 	}
 	sort.Strings(out)
 	return out
+}
+
+// bytesOfAbstract: the byte string of an abstract Hash / Addr value (uninterpreted, injective via hashOf/addrOf).
+func (ex *Exec) bytesOfAbstract(h *Term) *Term {
+	p := ex.p
+	arrS := p.ArraySort(IntSort, IntSort)
+	if h.Sort == ex.tm.HashS {
+		f := p.Func("hb", []*Sort{ex.tm.HashS}, arrS)
+		g := p.Func("hashOf", []*Sort{arrS}, ex.tm.HashS)
+		if !ex.assumptions["hashOf(hb(h)) == h"] {
+			ex.assumptions["hashOf(hb(h)) == h"] = true
+			x := p.BoundVar("h", ex.tm.HashS)
+			ex.facts = append(ex.facts, p.Forall([]*Term{x}, p.Eq(p.App(g, p.App(f, x)), x), []*Term{p.App(f, x)}))
+		}
+		return p.App(f, h)
+	}
+	f := p.Func("ab", []*Sort{ex.tm.AddrS}, arrS)
+	g := p.Func("addrOf", []*Sort{arrS}, ex.tm.AddrS)
+	if !ex.assumptions["addrOf(ab(a)) == a"] {
+		ex.assumptions["addrOf(ab(a)) == a"] = true
+		x := p.BoundVar("a", ex.tm.AddrS)
+		ex.facts = append(ex.facts, p.Forall([]*Term{x}, p.Eq(p.App(g, p.App(f, x)), x), []*Term{p.App(f, x)}))
+	}
+	return p.App(f, h)
 }
